@@ -111,7 +111,7 @@ fn exec_mgr(c: &Case) -> Vec<String> {
             continue;
         }
         let e = parse_elem(&op[1]).expect("bad elem");
-        for r in mgr.process(e) {
+        if let Some(r) = mgr.process(e) {
             out.push(format!("{idx} {}", fmt_elem(&res_elem(r))));
         }
         idx += 1;
